@@ -98,6 +98,9 @@ class AbsView(View):
 
     def refusal(self):
         AX.add(z3.And(smt.IREF(self.d) >= 0, smt.IREF(self.d) <= smt.N(self.d)))
+        # I-items: a dataset without items refuses key iteration with the library's own signal _ItemsNotDefined
+        # (assumed for inputs, an obligation of every stage: `I-items:refused-with-the-ItemsNotDefined-signal`)
+        AX.add(smt.SUB(smt.CLS(smt.IEXC(self.d)), z3.Const('cls__ItemsNotDefined', smt.Cls)))
         return smt.IREF(self.d), smt.IEXC(self.d)
 
     def n(self):
@@ -199,6 +202,10 @@ def call_keys(view, hier):
     """I-keys."""
     outs = [Out(view.keys, value=keys_seq(view), tag='keys')]
     e, f = _fresh_exc(hier)
+    if getattr(view, 'd', None) is not None and z3.is_expr(view.d) and view.d.sort().eq(smt.DS):
+        # a dataset that has no keys at all answers NotImplementedError (the base class); one whose keys exist but
+        # are refused (duplicate keys of a concatenation) answers with another exception
+        f = list(f) + [z3.Implies(smt.KEYS_UNIMPL(view.d), smt.SUB(smt.CLS(e.t), hier.const('NotImplementedError')))]
     outs.append(Out(z3.Not(view.keys), exc=e, facts=f, tag='keys-undefined'))
     return outs
 
